@@ -60,6 +60,8 @@ type vxNet struct {
 
 // vxSetup builds the committee, the validator and three genuine units whose proofs are over the
 // leaves the validator checks (the protobuf encoding of the unit's shard list).
+func vxNoKey(peer.ID) (crypto.PubKey, error) { return nil, nil }
+
 func vxSetup(rawLeaves bool) *vxNet {
 	n := &vxNet{}
 	var pub crypto.PubKey
@@ -68,6 +70,8 @@ func vxSetup(rawLeaves bool) *vxNet {
 	if vx.InEngine() {
 		vx.Stub("github.com/NethermindEth/juno/consensus/propeller.VerifyMessageSignature", vxVerifySigSpec)
 		vx.Stub("(github.com/NethermindEth/juno/consensus/propeller.ShardData).MarshalProto", vxProtoSpec)
+		// the publisher's key is only handed to the (modelled) signature check
+		vx.Stub("(github.com/libp2p/go-libp2p/core/peer.ID).ExtractPublicKey", vxNoKey)
 		n.a, n.b, n.p = peer.ID("A-peer"), peer.ID("B-peer"), peer.ID("P-publisher")
 	} else {
 		var err error
@@ -75,14 +79,20 @@ func vxSetup(rawLeaves bool) *vxNet {
 		if err != nil {
 			panic(err)
 		}
-		n.a, n.b, n.p = peer.ID("A-peer"), peer.ID("B-peer"), peer.ID("P-publisher")
+		pid, perr := peer.IDFromPublicKey(pub)
+		if perr != nil {
+			panic(perr)
+		}
+		// the committee is kept sorted by peer id: a real ed25519 peer id starts with 0x00 0x24
+		n.a, n.b, n.p = peer.ID("\x00\x01A-peer"), peer.ID("\x00\x02B-peer"), pid
+		local = peer.ID("\x00\x03L-local")
 	}
 	sched := &Scheduler{
 		localPeerID: local, localPeerIDIndex: 2,
 		peers:         []PeerCommittee{{ID: n.a}, {ID: n.b}, {ID: local}, {ID: n.p}},
 		numDataShards: 1, numCodingShards: 2,
 	}
-	n.v = UnitValidator{publisherPubKey: pub, scheduler: sched, receivedShards: map[ShardIndex]struct{}{}}
+	n.v = NewValidator(n.p, sched) // the real constructor (whatever bookkeeping it allocates)
 	n.senderOf = []peer.ID{n.a, n.b, n.p}
 	for i := 0; i < 3; i++ {
 		n.shards = append(n.shards, vx.Bytes("shard", 2))
@@ -124,7 +134,7 @@ func vxSetup(rawLeaves bool) *vxNet {
 }
 
 func VxC19ValidatorRejectsCorruptionOnly() {
-	vx.Bound("committee of 4 (1 data + 2 coding shards), shards of 2 symbolic bytes; for one shard index: optionally first a unit with one corrupted field (a shard byte, a proof sibling byte, the shard index, the signature, the sender) - every byte of the corruption symbolic - then the genuine unit, then the genuine unit again")
+	vx.Bound("committee of 4 (1 data + 2 coding shards), shards of 2 symbolic bytes; for one shard index: optionally first a unit with one corrupted field (a shard byte, a proof sibling byte, the shard index (any other 32-bit value, out of range included), the signature, the sender) - every byte of the corruption symbolic - then the genuine unit, then the genuine unit again")
 	n := vxSetup(false)
 	i := vx.Choice("index", 3)
 	genuine := n.units[i]
@@ -151,7 +161,13 @@ func VxC19ValidatorRejectsCorruptionOnly() {
 			vx.Cover("corrupted-proof")
 		case 2:
 			// right data, wrong index claimed (and so the wrong relayer for it)
-			junk.ShardIndex = ShardIndex((i + 1 + vx.Choice("shift", 2)) % 3)
+			// (any other 32-bit value: another shard of the committee, or an index no shard has)
+			bad := vx.U32("claimed-index")
+			vx.Assume(bad != uint32(i))
+			junk.ShardIndex = ShardIndex(bad)
+			if bad >= 3 {
+				vx.Cover("corrupted-index-out-of-range")
+			}
 			changed = true
 			vx.Cover("corrupted-index")
 		case 3:
